@@ -115,8 +115,65 @@ def w_order(w, cfg):
             w.discharge(f"nodata_and_negative_yield_nodata[{i}]", assume, V.to_real(got[i]) == z3.ToReal(nd), lemmas=lem, concretize=conc)
 
 
+def w_nodata_resolution(w, cfg):
+    """DataArray.hdc.algo.spi: the nodata value handed to the kernel is the `nodata` argument whenever one is given (ANY value, 0
+    included), else the array's nodata attribute; only when neither exists the call is refused. The argument and the attribute are
+    solver variables."""
+    from . import C09 as H9
+    from pysym.interp import Instance
+    from pysym.lib import native
+    T, grouped, has_arg, has_attr = 4, cfg["grouped"], cfg["arg"], cfg["attr"]
+    it = C.new_interp(policy="exact")
+    it.prune_mode = "facts"
+    ts, facts = H9.sorted_stamps(T)
+    arg, attr = z3.Int("nodata_arg"), z3.Int("nodata_attr")
+    facts = facts + [arg >= -32768, arg <= 32767, attr >= -32768, attr <= 32767]
+    it.assume(*facts)
+    st = State()
+    tix = H9.TimeIndex(it, st, ts)
+    calls = []
+
+    @native
+    def apply_ufunc(it_, st_, func, *args, **kw):
+        calls.append({"func": func.name, "args": args, "kwargs": kw.get("kwargs"), "guard": V.z_and(*st_.pc)})
+        return H9.ResultStub()
+    it.lib_overrides["xarray.apply_ufunc"] = apply_ufunc
+    cls = it.get_function("hdc.algo.accessors", "PixelAlgorithms")
+    cls.link_bases(it)
+    inst = Instance(cls)
+    inst.fields["_obj"] = H9.SpiObj(tix, T, {"nodata": attr} if has_attr else {})
+    kwargs = {}
+    if has_arg:
+        kwargs["nodata"] = arg
+    if grouped:
+        kwargs["groups"] = ["0", "1", "0", "1"]
+    it.call_function(st, cls.methods["spi"], [inst], kwargs)
+    w.res.encoded.update(it.encoded)
+    raised = V.z_or(*[g for g, k, m in st.exc_list])
+
+    def conc(m):
+        return {"accessor": True, "grouped": grouped, "arg": C.model_value(m, arg) if has_arg else None,
+                "attr": C.model_value(m, attr) if has_attr else None}
+    tag = f"spi.nodata[{'grouped' if grouped else 'plain'},arg={'given' if has_arg else 'None'},attr={'set' if has_attr else 'unset'}]"
+    if not has_arg and not has_attr:
+        w.discharge(f"{tag}.refused_with_ValueError", facts, V.z_or(*[g for g, k, m in st.exc_list if k == "ValueError"]), concretize=conc)
+        return
+    w.discharge(f"{tag}.accepted", facts, V.z_not(raised), concretize=conc)
+    want = arg if has_arg else attr
+    seen = False
+    for c in calls:
+        got = (c["kwargs"] or {}).get("nodata") if c["func"] == "gammastd_yxt" else (c["args"][3] if len(c["args"]) > 3 else None)
+        if got is None:
+            w.discharge(f"{tag}.kernel_receives_a_nodata_value", facts, z3.BoolVal(False), guard=c["guard"], concretize=conc)
+            continue
+        seen = True
+        w.discharge(f"{tag}.kernel_receives_the_resolved_value", facts, V.to_real(V.num_of_bool(got)) == z3.ToReal(want), guard=c["guard"],
+                    concretize=conc, sample=True)
+    w.discharge(f"{tag}.kernel_called", facts, z3.BoolVal(seen), concretize=conc)
+
+
 def worker(w, cfg):
-    {"safety": w_safety, "order": w_order}[cfg["kind"]](w, cfg)
+    {"safety": w_safety, "order": w_order, "nodata": w_nodata_resolution}[cfg["kind"]](w, cfg)
 
 
 def configs(tier):
@@ -138,11 +195,17 @@ def configs(tier):
             wins = [None] if T == 3 else [None, (0, 2), (1, 3)]
             for win in wins:
                 cf.append({"kind": "order", "T": T, "classes": list(classes), "window": win})
+    for grouped in (False, True):
+        for has_arg, has_attr in ((True, True), (True, False), (False, True), (False, False)):
+            cf.append({"kind": "nodata", "grouped": grouped, "arg": has_arg, "attr": has_attr})
     return cf
 
 
 def replay_candidate(chk, c):
-    r = chk.replayer.call("c08_spi", **c["input"])
+    if c["input"].get("accessor"):
+        r = chk.replayer.call("c08_accessor_nodata", grouped=c["input"]["grouped"], arg=c["input"]["arg"], attr=c["input"]["attr"])
+    else:
+        r = chk.replayer.call("c08_spi", **c["input"])
     return bool(r["violates"]), r
 
 
